@@ -48,6 +48,25 @@ pub fn judge(input: &[u8], acc: &mut Acc) {
         }
         _ => {}
     }
+    // (a') whenever the parser says "need - have bytes are missing", supplying exactly those bytes must succeed
+    if let Ok(Err(v2::ParseError::Partial(have, need))) = &r {
+        if have < need && !matches!(o, o2::Verdict::Partial(..)) && (*need <= 1024 || need - have <= 16) {
+            let mut buf = input.to_vec();
+            buf.resize(input.len() + (need - have), 0x5a);
+            let c = v2_parse(&buf);
+            acc.eval(1);
+            acc.validated(1);
+            if !matches!(&c, Ok(Ok(h)) if h.len() == 16 + need) {
+                acc.violation_on(
+                    "completion-not-accepted",
+                    entry,
+                    buf.clone(),
+                    format!("Ok after supplying the {} bytes that Partial({}, {}) says are missing", need - have, have, need),
+                    format!("{:?}", c.as_ref().map(|x| x.as_ref().map(|h| h.len()))),
+                );
+            }
+        }
+    }
     // (b) a truncated well-formed header must be reported with exactly the reference counts
     match (&o, &r) {
         (o2::Verdict::Incomplete(n), got) => {
